@@ -223,9 +223,9 @@ Boolean FloatRangeCheck(Double Wert, FloatType Typ) {
     case Float16:
         return (fabs(Wert) <= 65504.0);
     case Float32:
-        return (fabs(Wert) <= 3.4e38);
+        return (fabs(Wert) <= 3.4028234663852886e38);
     case Float64:
-        return (fabs(Wert) <= 1.7e308);
+        return (fabs(Wert) <= 1.7976931348623157e308);
         /**     case FloatCo: return fabs(Wert) <= 9.22e18; */
     case Float80:
         return True;
